@@ -993,13 +993,38 @@ impl<K: KeyLike, S: HB> Subject<K> for Arc_<K, S> {
     }
 }
 
-type Wt<K, S> = WTinyLFUCache<K, TVal, DynKH, S, S, S>;
+/// key hasher of the estimator: the harness family, or the crate's DefaultKeyHasher
+pub trait KHM<K: Hash + Eq>: KeyHasher<K> + Clone + 'static {
+    const IS_DEFAULT: bool;
+    fn mk(kind: HKind) -> Self;
+}
+impl<K: Hash + Eq> KHM<K> for DynKH {
+    const IS_DEFAULT: bool = false;
+    fn mk(kind: HKind) -> Self {
+        DynKH(DynBH::new(kind))
+    }
+}
+impl<K: Hash + Eq + Clone + 'static> KHM<K> for caches::lfu::DefaultKeyHasher<K> {
+    const IS_DEFAULT: bool = true;
+    fn mk(_: HKind) -> Self {
+        Default::default()
+    }
+}
 
-impl<K: KeyLike, S: HB> Subject<K> for Wt<K, S> {
+type Wt<K, S> = WTinyLFUCache<K, TVal, DynKH, S, S, S>;
+type WtG<K, KH, S> = WTinyLFUCache<K, TVal, KH, S, S, S>;
+
+impl<K: KeyLike, KH: KHM<K>, S: HB> Subject<K> for WtG<K, KH, S> {
     const KIND: Kind = Kind::Wtlfu;
     fn build(cfg: &Cfg) -> Result<Self, String> {
-        let b = WTinyLFUCacheBuilder::<K, DynKH, S, S, S>::with_hashers(
-            DynKH(DynBH::new(cfg.kh)),
+        if KH::IS_DEFAULT && S::IS_DEFAULT {
+            // the plain constructor: default key hasher, default list hashers
+            let r: Result<WTinyLFUCache<K, TVal>, String> =
+                WTinyLFUCache::<K, TVal>::with_sizes(cfg.a, cfg.b, cfg.c, cfg.samples).map_err(|e| format!("{:?}", e));
+            return cast::<Result<WTinyLFUCache<K, TVal>, String>, Result<Self, String>>(r);
+        }
+        let b = WTinyLFUCacheBuilder::<K, KH, S, S, S>::with_hashers(
+            KH::mk(cfg.kh),
             S::mk(cfg.hk),
             S::mk(cfg.hk),
             S::mk(cfg.hk),
@@ -1287,7 +1312,7 @@ fn mk_k<K: KeyLike>(cfg: &Cfg) -> Result<Box<dyn DynSubject>, String> {
             Kind::Slru => mk::<K, Slru<K, D>>(cfg),
             Kind::TwoQ => mk::<K, TwoQ<K, D>>(cfg),
             Kind::Arc => mk::<K, Arc_<K, D>>(cfg),
-            Kind::Wtlfu => mk::<K, Wt<K, D>>(cfg),
+            Kind::Wtlfu => mk::<K, WtG<K, caches::lfu::DefaultKeyHasher<K>, D>>(cfg),
         }
     } else {
         match cfg.kind {
